@@ -83,6 +83,8 @@ type Case struct {
 	Goroutines int      `json:"goroutines"` // concurrent RestoreChunk callers
 	Dups       int      `json:"dups"`       // extra deliveries of already scheduled chunks
 	AbortAt    int      `json:"abort_at"`   // abort + restart after that many deliveries (-1: never)
+	Gate       int      `json:"gate"`       // -1: none; -2: last chunk; k >= 0: chunk k mod n is pinned in flight (blocking reader) while another caller restores all other chunks
+	GateDup    bool     `json:"gate_dup"`   // a duplicate of the pinned chunk is submitted while the original is in flight
 	FullAbort  bool     `json:"full_abort"` // restarts also AbortMultipartInsert + StartMultipartInsert (else only the restorer is restarted and the multipart insert continues)
 	Corrupt    string   `json:"corrupt"`    // "" flip trunc swap digest other other-digest empty
 	CorruptIdx int      `json:"corrupt_idx"`
@@ -634,6 +636,22 @@ func checkChunks(s *source, c *ckpt, threads uint16, res *result) {
 	}
 }
 
+// gatedReader announces its first Read and then blocks until released: the
+// RestoreChunk call that owns it is pinned "in flight" (past the restorer's
+// pending check, nothing imported yet).
+type gatedReader struct {
+	r       io.Reader
+	once    sync.Once
+	started chan struct{}
+	release chan struct{}
+}
+
+func (g *gatedReader) Read(p []byte) (int, error) {
+	g.once.Do(func() { close(g.started) })
+	<-g.release
+	return g.r.Read(p)
+}
+
 type delivery struct {
 	idx  int
 	data []byte
@@ -842,6 +860,116 @@ func runCase(c Case) (res *result) {
 		}
 	}
 
+	doneCount := 0
+	depthHit := ""
+	finalized := false
+	gated := c.Gate != -1 && n >= 2
+	if gated {
+		// phase 3g: chunk k is pinned in flight by caller A; caller B restores every
+		// other chunk.  No call may report done=true before k's import has completed.
+		k := n - 1
+		if c.Gate >= 0 {
+			k = c.Gate % n
+		}
+		res.s("gated")
+		gr := &gatedReader{r: bytes.NewReader(cp.chunks[k]), started: make(chan struct{}), release: make(chan struct{})}
+		type rr struct {
+			done bool
+			err  error
+		}
+		resA := make(chan rr, 1)
+		go func() {
+			defer func() {
+				if p := recover(); p != nil {
+					resA <- rr{false, fmt.Errorf("panic: %v", p)}
+				}
+			}()
+			done, err := rs.RestoreChunk(ctx, uint64(k), gr)
+			resA <- rr{done, err}
+		}()
+		<-gr.started
+		released := false
+		release := func() {
+			if !released {
+				released = true
+				close(gr.release)
+			}
+		}
+		defer release()
+		kImported := false // some call for chunk k has returned successfully
+		early := func(who string) {
+			// done=true although chunk k has not been imported by anybody
+			res.v("done-signalled-while-a-chunk-is-still-in-flight (chunk %d of %d pinned, done returned by %s)", k, n, who)
+			// what the real callers do now: finalize
+			finalized = true
+			if err := ndb.Finalize([]node.Root{s.root}); err != nil {
+				res.v("early-done-Finalize failed: %v", err)
+			} else if got, err := readAll(ndb, s.root); err != nil || !sameContents(got, s.es) {
+				res.v("early-done-finalized-contents-differ (%d keys read, %d expected, err=%v)", len(got), len(s.es), err)
+			}
+		}
+		var bsched []delivery
+		for _, d := range sched {
+			if d.idx != k {
+				bsched = append(bsched, d)
+			}
+		}
+		if c.GateDup {
+			// a duplicate of the pinned chunk, at a seeded position
+			p := r.Intn(len(bsched) + 1)
+			bsched = append(bsched[:p], append([]delivery{{idx: k, data: cp.chunks[k]}}, bsched[p:]...)...)
+			res.s("gated-duplicate-while-in-flight")
+		}
+		for _, d := range bsched {
+			done, err := rs.RestoreChunk(ctx, uint64(d.idx), bytes.NewReader(d.data))
+			cl := errClass(err)
+			switch cl {
+			case "ok":
+				if d.idx == k {
+					kImported = true
+				}
+			case "already-restored":
+			case "no-restore":
+				res.s("late-duplicate-after-completion")
+			case "proof-failed":
+				if chunkDepth(d.data) > maxProofDepth {
+					depthHit = fmt.Sprintf("genuine chunk %d of %d (deepest proof entry at depth %d) refused: %v", d.idx, n, chunkDepth(d.data), err)
+				} else {
+					res.v("good-chunk-refused (chunk %d of %d, gated): %s", d.idx, n, cl)
+				}
+			default:
+				res.v("good-chunk-refused (chunk %d of %d, gated): %s", d.idx, n, cl)
+			}
+			if done {
+				doneCount++
+				if !kImported && !finalized {
+					early(fmt.Sprintf("the call for chunk %d", d.idx))
+				}
+			}
+			if depthHit != "" || finalized {
+				break
+			}
+		}
+		release()
+		ra := <-resA
+		if ra.done {
+			doneCount++
+		}
+		switch cl := errClass(ra.err); {
+		case cl == "ok" || cl == "already-restored":
+		case finalized || kImported || depthHit != "":
+			// the pinned call lost a race it is allowed to lose
+			res.s("pinned-call-after-completion:" + kindOf(cl))
+		case cl == "proof-failed" && chunkDepth(cp.chunks[k]) > maxProofDepth:
+			depthHit = fmt.Sprintf("genuine chunk %d of %d (deepest proof entry at depth %d) refused: %v", k, n, chunkDepth(cp.chunks[k]), ra.err)
+		default:
+			res.v("good-chunk-refused (pinned chunk %d of %d): %s", k, n, cl)
+		}
+		if finalized {
+			return
+		}
+	}
+	if !gated {
 	// phase 3: the whole schedule from [Goroutines] concurrent callers
 	g := c.Goroutines
 	if g < 1 {
@@ -849,8 +977,6 @@ func runCase(c Case) (res *result) {
 	}
 	var mu sync.Mutex
 	next := 0
-	doneCount := 0
-	depthHit := ""
 	var wg sync.WaitGroup
 	for w := 0; w < g; w++ {
 		wg.Add(1)
@@ -897,6 +1023,7 @@ func runCase(c Case) (res *result) {
 		}()
 	}
 	wg.Wait()
+	}
 	if depthHit != "" {
 		// the restore cannot complete: every consequence is this one finding
 		res.finds = append(res.finds, finding{finDepth, depthHit})
@@ -1027,6 +1154,11 @@ func genCases(r *prng.R, i int, maxN int, perTree int) []Case {
 			c.AbortAt = r.Intn(1 << 20)
 		}
 		c.FullAbort = r.Chance(40)
+		c.Gate = -1
+		if r.Chance(30) {
+			c.Gate = []int{0, -2, r.Intn(1 << 20), r.Intn(1 << 20)}[r.Intn(4)]
+			c.GateDup = r.Chance(35)
+		}
 		out = append(out, c)
 	}
 	return out
@@ -1039,7 +1171,7 @@ func deepCases(r *prng.R) []Case {
 		for _, n := range []int{128, 129, 130, 131, 200} {
 			sp := TreeSpec{Kind: k, N: n, Seed: 7, ValMax: 3}
 			out = append(out, Case{Tree: sp, Src: "pathbadger", Dst: []string{"badger", "pathbadger"}[r.Intn(2)],
-				ChunkSize: uint64(40 + r.Intn(5000)), Threads: uint16(r.Intn(5)), RSeed: r.U64(), Goroutines: 1, AbortAt: -1})
+				ChunkSize: uint64(40 + r.Intn(5000)), Threads: uint16(r.Intn(5)), RSeed: r.U64(), Goroutines: 1, AbortAt: -1, Gate: -1})
 		}
 	}
 	return out
@@ -1070,6 +1202,7 @@ func shrink(c Case, kind string) Case {
 	cur := c
 	for _, f := range []func(*Case){
 		func(d *Case) { d.Goroutines = 1 },
+		func(d *Case) { d.GateDup = false },
 		func(d *Case) { d.Dups = 0 },
 		func(d *Case) { d.AbortAt = -1 },
 		func(d *Case) { d.Corrupt = "" },
